@@ -146,7 +146,7 @@ fn single_locale_project(entries: Vec<(usize, Vec<(String, Val)>)>) -> Project {
 }
 
 pub fn run(tier: Tier) -> i32 {
-    let rep = Reporter::new("C06", "L1", tier);
+    let rep = Reporter::new("C06", &engine_name("L1"), tier);
     let scratch = Scratch::new("c06");
     let keys_total = Mutex::new(0u64);
     let max_depth = tier.pick(2, 3);
